@@ -1,5 +1,45 @@
 import FGVerif.Driver.Shared
-/-! driver operations for C19 (stub: replaced by the property's own driver) -/
+import FGVerif.Model.C19
+/-! driver operations for C19 -/
 namespace C19
-def handle : List SExp → Option SExp := fun _ => none
+open SExp
+
+def ofErr : Err → SExp
+  | .valueError => .list [.atom "raised", .atom "ValueError"]
+  | .keyError => .list [.atom "raised", .atom "KeyError"]
+
+def ofOut : Except Err Graph → SExp
+  | .ok g => ofGraph g
+  | .error e => ofErr e
+
+/-- implementation output: a graph or `(raised <Kind>)`; kinds other than ValueError are all
+    mapped to `keyError` ("some other exception") for the purpose of the spec -/
+def asOut : SExp → Option (Except Err Graph)
+  | .list [.atom "raised", .atom k] => some (.error (if k == "ValueError" then .valueError else .keyError))
+  | x => (asGraph x).map .ok
+
+/-- a digest that is injective on the strings the hash feeds it (brackets do not occur in
+    symbols, orders or counts): the partition it induces is the finest any digest can induce -/
+def bracket (s : String) : String := "<" ++ s ++ ">"
+
+/-- `(bridge <ignore_aam 0|1> <graph> [impl])` → `(ok <graph | (raised K)> spec_model spec_impl)`
+    `(wl <iterations> <graph>)` → `(ok <hash under the bracket digest, hex> 1 _)` -/
+def handle : List SExp → Option SExp
+  | .atom "bridge" :: ia :: g :: rest => do
+      let ia ← asBool ia
+      let g ← asGraph g
+      let model := bridge ia g
+      let si ← match rest with
+        | [impl] => do
+            let o ← asOut impl
+            pure (ofBool (specCheck ia g o))
+        | _ => pure none'
+      pure (.list [.atom "ok", ofOut model, ofBool (specCheck ia g model), si,
+                   .atom (if edgesClosed g then "closed=1" else "closed=0")])
+  | .atom "wl" :: k :: g :: _ => do
+      let k ← asNat k
+      let g ← asGraph g
+      pure (.list [.atom "ok", ofStr (wlHash (wlString bracket) k g), ofBool true, none'])
+  | _ => none
+
 end C19
